@@ -211,9 +211,19 @@ def run(ctx):
     B = 6
     for i in range(0, len(cases), B):
         outs += run_lines(impl, [c for c, _ in cases[i:i + B]], "impl")
+    # documented load flakiness of the library's `check` ("index still in use" after a 100 ms wait for
+    # worker threads, index.rs): rerun such a case singly, up to three times; any other panic is reported
+    flaky = 0
+    for i, o in enumerate(outs):
+        tries = 0
+        while o.startswith("panic") and "index still in use" in o and tries < 3:
+            tries += 1; flaky += 1
+            o = run_lines(impl, [cases[i][0]], "impl")[0]
+        outs[i] = o
     hist = {"backups": 0, "packs_written": 0, "blobs_stored": 0, "rebackups_unchanged": 0, "ops": {},
             "in_run_duplicates": 0, "cross_type_ids": 0, "locality_checked": 0, "resync_chunks": {},
-            "parent_based_backups": 0, "dedup_partial_backups": 0, "summary_mismatch": 0}
+            "parent_based_backups": 0, "dedup_partial_backups": 0, "summary_mismatch": 0,
+            "reruns_for_index_still_in_use": flaky}
     viol, mlines, mref, samples, reload_mismatch = [], [], [], [], []
     nontriv = set()
 
